@@ -13,11 +13,11 @@ use yash_semantics::trap::run_exit_trap;
 use yash_semantics::{Runtime, read_eval_loop};
 
 pub trait Sys:
-    Runtime + Chdir + GetCwd + GetRlimit + GetUid + Sysconf + TcGetPgrp + Times + Umask + Write + 'static
+    Runtime + Chdir + GetCwd + GetRlimit + GetUid + Sysconf + TcGetPgrp + Times + Umask + Write + yash_env::system::Seek + 'static
 {
 }
 impl<S> Sys for S where
-    S: Runtime + Chdir + GetCwd + GetRlimit + GetUid + Sysconf + TcGetPgrp + Times + Umask + Write + 'static
+    S: Runtime + Chdir + GetCwd + GetRlimit + GetUid + Sysconf + TcGetPgrp + Times + Umask + Write + yash_env::system::Seek + 'static
 {
 }
 
